@@ -11,6 +11,7 @@ import Parmcb.Model.Cert
 import Parmcb.Model.TreesAlgo
 import Parmcb.Model.HeapAlgo
 import Parmcb.Model.Mpi
+import Parmcb.Model.MpiAlgo
 import Parmcb.Driver.Proto
 /-! correspondence handlers for the graph algorithms (C16, C13, C01/C02 …) -/
 namespace Parmcb.Driver
@@ -413,6 +414,83 @@ def replayMpiSigned (id : String) (gI : Graph) (rev : List Nat) (_dim : Nat) (su
     k := k + 1
   return none
 
+/-- **literal replay of the MPI tree variants** (`Model/MpiAlgo.lean`).  Rank 0's collection is the model's (FVS observed / isometric);
+every rank's chunk, trees and candidates are REBUILT by the model (`rankChunk`, `rankCollection`) and must be, as a multiset, the
+sorted local list that rank reports (hook 5536bbc), which must be sorted by weight; then per phase every rank's lookup is evaluated
+literally on ITS reported order (`lookupSorted`; the TBB entry points under the schedule the stand-in logged) and what rank 0 emits
+must be the result of SOME rank whose weight is the minimum over the ranks (the reduction tree of `boost::mpi::reduce` is not
+observable; with distinct weights: the unique minimum). -/
+def replayMpiTrees (id : String) (gI : Graph) (var : String) (tbb : Bool) (dim P : Nat)
+    (rest : List (List String)) (cycI : List (List Nat)) : Option String := Id.run do
+  let (treesAll, coll) := if var == "mpi_fvs" then fvsCands gI ((findNats "fvs" rest).getD []) else isoCands gI
+  let rscs := rest.filter (fun l => l.head? == some "rsc")
+  let mut locals : List (List SPTree × List Cand) := []
+  let mut sizes : List Nat := []
+  let mut unionCyc : List (List Nat) := []
+  let mut unionPairs : List (Nat × Nat) := []
+  for r in List.range P do
+    let mine := rscs.filter (fun l => (l.getD 1 "").toNat? == some r)
+    let obs : List (Cand × Nat) := mine.filterMap fun l =>
+      match l.drop 2 with
+      | [t, s, e, w] => do some ({ tree := (← t.toNat?), edge := (← e.toNat?), weight := (← w.toInt?) }, (← s.toNat?))
+      | _ => none
+    match (rest.find? fun l => l.head? == some "rnsc" && (l.getD 1 "").toNat? == some r) with
+    | some l => if (l.getD 2 "").toNat? != some obs.length then return some s!"diff {id} rank {r}: parse-rsc-lines"
+    | none => return some s!"diff {id} rank {r}: no candidate report"
+    -- the rank's chunk as it arrived = the (root, edge) pairs of its local candidates; trees and candidates rebuilt by the model
+    let chunk := obs.map fun (c, s) => (s, c.edge)
+    let rc := rankCollection gI chunk
+    for (c, s) in obs do
+      match rc.1[c.tree]? with
+      | none => return some s!"diff {id} rank {r}: tree id {c.tree} out of range (model rebuilds {rc.1.length} trees)"
+      | some t => if t.source != s then return some s!"diff {id} rank {r}: tree {c.tree} rooted at {s}, model {t.source}"
+    let oc := obs.map (·.1)
+    if oc.length != rc.2.length || !(oc.all rc.2.contains) || !(rc.2.all oc.contains) then
+      return some s!"diff {id} rank {r}: local candidates are not what the model rebuilds from the rank's chunk (observed {oc.length}, model {rc.2.length})"
+    if !(oc.zip oc.tail).all (fun (a, b) => a.weight ≤ b.weight) then
+      return some s!"viol {id} rank {r}: local candidate list not sorted by weight"
+    locals := locals ++ [(rc.1, oc)]
+    sizes := sizes ++ [oc.length]
+    unionPairs := unionPairs ++ chunk
+    unionCyc := unionCyc ++ oc.filterMap fun c => (rc.1[c.tree]?).bind fun t => unfoldCand gI t c
+  -- the scatter: ceil-stride chunk sizes, and all chunks together are rank 0's collection (FVS: the same (root, edge) pairs;
+  -- isometric: candidates standing for the same cycles — which representative of a class is kept depends on the edge order)
+  let total := sizes.foldl (· + ·) 0
+  if total != coll.length then return some s!"diff {id} scattered candidates {total}, model collection {coll.length}"
+  if sizes != (List.range P).map (fun r => (slice total P r).length) then
+    return some s!"diff {id} chunk sizes {sizes} are not the ceil-stride slices of {total} over {P} ranks"
+  let pairLe : Nat × Nat → Nat × Nat → Bool := fun a b => a.1 < b.1 || (a.1 == b.1 && a.2 ≤ b.2)
+  if var == "mpi_fvs" && unionPairs.mergeSort pairLe != (coll.map (serialise treesAll)).mergeSort pairLe then
+    return some s!"diff {id} the chunks together are not the model's FVS collection"
+  let collCyc := (coll.filterMap fun c => (treesAll[c.tree]?).bind fun t => unfoldCand gI t c).mergeSort natListLe
+  if unionCyc.mergeSort natListLe != collCyc then
+    return some s!"diff {id} the chunks together stand for other cycles than the model's collection"
+  let rs := rest.filter (fun l => l.head? == some "rsched")
+  let schedOf := fun (r i : Nat) =>
+    ((rs.filter (fun l => (l.getD 1 "").toNat? == some r))[i]?).bind fun l => parseSched (l.getD 3 "")
+  let sups := phaseSupports .mpi 0 (unitSupports dim) cycI
+  let mut k := 0
+  for (S, cyc) in sups.zip cycI do
+    let mut results : List CycW := []
+    for r in List.range P do
+      let (tr, cs) := locals.getD r ([], [])
+      let mut res : Option CycW := none
+      if tbb then
+        match schedOf r k with
+        | some sch => res := lookupTbb gI tr cs S sch
+        | none => return some s!"diff {id} literal-mpi-trees phase {k} rank {r}: schedule missing"
+      else res := lookupSorted gI tr cs S
+      match res with
+      | some x => results := results ++ [x]
+      | none => pure ()
+    match results.foldl (fun (m : Option Int) x => match m with | none => some x.2 | some w => some (if x.2 < w then x.2 else w)) none with
+    | none => return some s!"diff {id} literal-mpi-trees phase {k}: no rank finds a cycle"
+    | some w =>
+      if !(results.any fun x => x.2 == w && x.1 == cyc) then
+        return some s!"diff {id} literal-mpi-trees phase {k} impl=[{showNats cyc}] is not a minimum-weight rank result; rank results {results}"
+    k := k + 1
+  return none
+
 /-- C01/C02: the implementation's cycles are replayed through the literal support bookkeeping -/
 def handleExact (c : Case) : String := Id.run do
   match parseGraph c.body with
@@ -459,6 +537,14 @@ def handleExact (c : Case) : String := Id.run do
           match replayMpiSigned c.id gI rev dim sup0 P rest cycI with
           | some d => return d
           | none => lit := 1
+        if (var == "mpi_fvs" || var == "mpi_iso") && (findLine "rnsc" rest).isSome then
+          let (P, tbb) := match findLine "entry" rest with
+            | some [e, p] => (p.toNat?.getD 1, e.endsWith "_tbb")
+            | _ => (1, false)
+          if !tbb || (findLine "rsched" rest).isSome || dim == 0 then
+            match replayMpiTrees c.id gI var tbb dim P rest cycI with
+            | some d => return d
+            | none => lit := 1
         if var == "signed" && (!evs.isEmpty || dim == 0) then
           match replaySigned c.id gI rev dim evs cycI (some ret) with
           | some d => return d
